@@ -135,9 +135,28 @@ def project_rule(ctx, p):
     res = {k: [] for k in ("centre", "angle", "defaults", "types", "Grid2D", "Grid1D", "Grid2DIrregular")}
     kinds = ("Grid2D", "Grid2DIrregular", "Grid1D")
     seen_types = set()
+    def is_kind(q, k):
+        """truth of isinstance(grid, k) on the path: tested directly, or through a tuple test (`isinstance(grid, (A, B))` true with A false gives B; false gives neither)"""
+        d = q.holds(f"isinstance(grid, {k})")
+        if d is not None:
+            return d
+        for t, truth in q.conds:
+            if t.startswith("isinstance(grid, (") and t.endswith("))"):
+                members = [m.strip() for m in t[len("isinstance(grid, ("):-2].split(",") if m.strip()]
+                if k in members:
+                    if not truth:
+                        return False
+                    if all(q.holds(f"isinstance(grid, {m})") is False for m in members if m != k):
+                        return True
+        return None
+
     for q in rets:
-        # which attribute of the profile is available on this path: only `hasattr` and `is not None` tests may decide it (a truthiness test would discard 0)
+        ty = [k for k in kinds if is_kind(q, k) is True]
+        ty = ty[0] if ty and all(is_kind(q, k) is False for k in kinds[:kinds.index(ty[0])]) else None
+        # which attribute of the profile is available on this path: only `hasattr` and `is not None` tests may decide it (a truthiness test would discard 0);
+        # an attribute must be decided on the paths that use it (centre: Grid2D; angle: Grid2D and Grid1D)
         exp = {}
+        text = q.text
         for attr, used, dflt in (("centre", "obj.centre", "(0.0,0.0)"), ("angle", "obj.angle+90.0", "0.0")):
             has = q.holds(f"hasattr(obj, '{attr}')")
             notnone = q.holds(f"obj.{attr} is not None")
@@ -145,10 +164,11 @@ def project_rule(ctx, p):
             avail = (has is True and notnone is True) or ga is True
             decided = avail or has is False or notnone is False or ga is False
             exp[attr] = used if avail else dflt
+            if ga is True:
+                text = text.replace(f"getattr(obj,'{attr}',None)", f"obj.{attr}")   # the attribute exists and is not None on this path: the fetch with a default is the attribute
             truthy = [t for t, _ in q.conds if t in (f"obj.{attr}", f"getattr(obj, '{attr}', None)")]
-            res[attr].append((decided and not truthy, q, f"{attr}: hasattr={has} not-None={notnone}" + (" (truthiness test)" if truthy else "")))
-        ty = [k for k in kinds if q.holds(f"isinstance(grid, {k})") is True]
-        ty = ty[0] if len(ty) == 1 and all(q.holds(f"isinstance(grid, {k})") is False for k in kinds[:kinds.index(ty[0])]) else None
+            needed = ty == "Grid2D" or (ty == "Grid1D" and attr == "angle") or ty is None
+            res[attr].append(((decided or not needed) and not truthy, q, f"{attr}: hasattr={has} not-None={notnone} getattr-not-None={ga}" + (" (truthiness test)" if truthy else "")))
         if ty is None:
             res["types"].append((False, q, str(q.conds)[:120]))
             continue
@@ -158,7 +178,7 @@ def project_rule(ctx, p):
         if ty in ("Grid2D", "Grid1D"):
             proj = f"grid.grid_2d_radial_projected_from(angle={exp['angle']},centre={exp['centre']})" if ty == "Grid2D" else f"grid.grid_2d_radial_projected_from(angle={exp['angle']})"
             want = f"Array1D.no_mask(pixel_scales=grid.pixel_scale,values=func(obj,{proj},*args,**kwargs))"
-            ok_ = q.text == want
+            ok_ = text == want
             res[ty].append((ok_, q, q.text[:150]))
             # the defaults are what is used when the attribute is not available
             res["defaults"].append((ok_ or not ("0.0" in want), q, q.text[:150]))
